@@ -42,6 +42,11 @@ DISCRIMINATING = [
     ({"id": "http://ex.test/d/", "properties": {"p": {"$ref": "t.json"}}}, [{"p": 1}, {"p": "s"}]),
     ({"$id": "http://ex.test/d/", "properties": {"p": {"$ref": "t.json"}}}, [{"p": 1}, {"p": "s"}]),
     (True, [1, "a"]), (False, [1, "a"]),        # schemas in drafts 6/7, not schemas at all in drafts 3/4
+    # a local reference below a root id: resolvable without any store, by whichever class reads that id keyword
+    ({"id": "http://ex.test/d/s.json", "definitions": {"x": {"type": "string"}}, "properties": {"p": {"$ref": "#/definitions/x"}}},
+     [{"p": 1}, {"p": "s"}]),
+    ({"$id": "http://ex.test/d/s.json", "definitions": {"x": {"type": "string"}}, "properties": {"p": {"$ref": "#/definitions/x"}}},
+     [{"p": 1}, {"p": "s"}]),
 ]
 
 
@@ -259,8 +264,8 @@ class C20(Prop):
     def check_cli(self, case, res):
         from jsonschema import cli
         schema, xs = self.family(case)
-        if "$ref" in impl.cj(schema):
-            res.excluded = "cli-family-with-ref"
+        if "t.json" in impl.cj(schema):
+            res.excluded = "cli-family-with-ref"        # needs a store the command line cannot be given
             return
         explicit = case.get("explicit")
         want_cls, _ = self.model(schema, None)
